@@ -523,6 +523,10 @@ func (t *decideTr) stmts(ss []ast.Stmt, fall string) (string, error) {
 			}
 		}
 	case *ast.RangeStmt:
+		// a loop that only logs
+		if t.onlyLogging(x.Body.List) {
+			return t.stmts(rest, fall)
+		}
 		// trace mode, outside the loop body: the loop as a whole is one effect (its body is translated on its own)
 		if t.spec.trace != nil && !t.spec.loopBody && !hasReturn(x.Body.List) {
 			cont, err := t.stmts(rest, fall)
@@ -649,6 +653,16 @@ func translateDecide(src string, spec *decideSpec) (string, error) {
 }
 
 var decideSpecs = []*decideSpec{
+	{
+		file: "template/template_data.go", recv: "TemplateData", fn: "VerifyJSONSchema", lean: "verifyJSONSchema",
+		params: "{R : Type} (validate : Option R) (isValid : R → Bool)",
+		result: "Except String Unit",
+		atoms:  map[string]string{"result.Valid()": "isValid v_result"},
+		calls:  map[string]string{"schema.Validate": "validate"},
+		errs: map[string]string{"\"validating json schema: %w\"": "\"validate-call\"", "ErrTemplateDataSchemaValidation": "\"invalid\""},
+		ignore:   []string{"log"},
+		dropArgs: []string{"gojsonschema.NewGoLoader(t)"},
+	},
 	{
 		file: "config/config.go", recv: "PackageConfig", fn: "ShouldGenerateInterface", lean: "shouldGenerateInterface",
 		params: "(all listed : Bool) (includeRegex excludeRegex interfaceName : String) (matchString : String → String → Option Bool)",
